@@ -40,9 +40,10 @@ Proof. exact pool_typed. Qed.
 Print Assumptions C15_pool_typed.
 
 (* ---------------------------------------------------------------------------------------------------------
-   Counter cells: the three statements hold for every history in which no modification creates or updates a PDR
-   and no deletion is rejected by the datapath (ctr_guard), and are refuted outside it (F24, F1502). *)
-Theorem C15_counters_partial : forall c evs, ctr_guard evs (snd (run (init c) evs)) = true -> NoDup (i_ctr c) ->
+   Counter cells: the three statements hold for every history in which no modification CREATES a PDR (ctr_guard;
+   failing Writes, rejected deletions and Update PDR are all inside the guard), and are refuted outside it:
+   sendUpdate allocates no counter, a PDR created by a modification is stored with ctrID 0. *)
+Theorem C15_counters_partial : forall c evs, ctr_guard evs = true -> NoDup (i_ctr c) ->
   counters_ok c (fst (run (init c) evs)).
 Proof. exact counters_guarded. Qed.
 Print Assumptions C15_counters_partial.
@@ -52,76 +53,77 @@ Definition sess1 : rules :=
   Rules [Pdr 1 true 1 (Some 1) true 0; Pdr 2 false 2 (Some 1) true 0] [Far 1 false false 0; Far 2 true true 5] [Qer 1 QApp].
 Definition sess2 : rules :=
   Rules [Pdr 1 true 1 None true 0; Pdr 2 false 2 None true 0] [Far 1 false false 0; Far 2 true true 6] [Qer 1 QApp; Qer 2 QSess].
+(* Create PDR 3, 4 + Create FAR 3, 4 in a modification *)
+Definition add_pair : modmsg :=
+  ModMsg [Pdr 3 true 3 (Some 2) true 0; Pdr 4 false 4 (Some 2) true 0] [Far 3 false false 0; Far 4 true true 5] [] [] [] [].
 
-(* F24: sendDelete hands the counter cells back before the DELETE that may fail; the rejected deletion keeps the
-   session: its cells are free while it holds them ... *)
+(* the session took cells 1 and 2; the PDRs created by the modification are stored with ctrID 0: cell 0 is free
+   while they hold it ... *)
 Theorem C15_not_free_while_used_counters_refuted : exists c evs id, NoDup (i_ctr c) /\
   In id (pool KCtr (fst (run (init c) evs))) /\ In id (holders KCtr (fst (run (init c) evs))).
 Proof.
-  exists c0, [(OpEst 7 sess1, ([], [])); (OpDel 7, ([], [WFail]))], 0. split.
+  exists c0, [(OpEst 7 sess1, ([1; 2], [])); (OpMod 7 add_pair, ([], []))], 0. split.
   - repeat constructor; cbn; intuition discriminate.
   - vm_compute. intuition.
 Qed.
 Print Assumptions C15_not_free_while_used_counters_refuted.
-(* ... and the next session is handed the same cells: two live PDRs share a counter *)
+(* ... and both of them hold it *)
 Theorem C15_exclusive_counters_refuted : exists c evs, NoDup (i_ctr c) /\ ~ NoDup (holders KCtr (fst (run (init c) evs))).
 Proof.
-  exists c0, [(OpEst 7 sess1, ([], [])); (OpDel 7, ([], [WFail])); (OpEst 8 sess2, ([0; 1], []))]. split.
+  exists c0, [(OpEst 7 sess1, ([1; 2], [])); (OpMod 7 add_pair, ([], []))]. split.
   - repeat constructor; cbn; intuition discriminate.
-  - vm_compute. intros H. inversion H as [|x l Hx Hl]; subst. apply Hx. cbn. intuition.
+  - vm_compute. intros H. inversion H as [|x l Hx Hl]; subst. inversion Hl as [|x2 l2 Hx2 Hl2]; subst.
+    inversion Hl2 as [|x3 l3 Hx3 Hl3]; subst. apply Hx3. cbn. intuition.
 Qed.
 Print Assumptions C15_exclusive_counters_refuted.
-(* F1502: Update PDR overwrites the stored PDR, ctrID 0 replaces the allocated cell; the deletion then puts 0 into
-   the pool, which never contained it here *)
+(* the deletion then puts 0 into a pool that never contained it *)
 Theorem C15_pool_typed_counters_refuted : exists c evs, ~ incl (pool KCtr (fst (run (init c) evs))) (i_ctr c).
 Proof.
   exists (Cfg [5; 6; 7] [1; 2; 3] [1; 2; 3] [2; 3] [1; 2]),
-         [(OpEst 7 sess1, ([], [])); (OpMod 7 (ModMsg [] [] [] [Pdr 2 false 2 (Some 1) true 0] [] []), ([], [])); (OpDel 7, ([], []))].
+         [(OpEst 7 sess1, ([], [])); (OpMod 7 add_pair, ([], [])); (OpDel 7, ([], []))].
   vm_compute. intros H. specialize (H 0). cbn in H. intuition discriminate.
 Qed.
 Print Assumptions C15_pool_typed_counters_refuted.
 
 (* ---------------------------------------------------------------------------------------------------------
-   A failed Write of an establishment / modification is answered with a rejection. *)
+   A failed Write of an establishment / modification is answered with a rejection: full statement. *)
 (* for the i-th operation of any history: if some Write of it failed (WFail: gRPC error or a p4.Error other than
-   OK / ALREADY_EXISTS; WUnk: status UNKNOWN without details) and no WUnk hit the per-PDR table batch, the
-   operation is not accepted *)
-Theorem C15_fail_rejects_partial : forall c evs i e x,
+   OK / ALREADY_EXISTS; WUnk: status UNKNOWN without details), the operation is not accepted *)
+Theorem C15_fail_rejects : forall c evs i e x,
   nth_error evs i = Some e -> nth_error (snd (run (init c) evs)) i = Some x -> is_del (fst e) = false ->
-  existsb unk_tolerated (o_log x) = false -> existsb failed (o_log x) = true -> o_acc x = false.
+  existsb failed (o_log x) = true -> o_acc x = false.
 Proof. exact fail_rejects_run. Qed.
-Print Assumptions C15_fail_rejects_partial.
-
-(* F1501: modifyUP4ForwardingConfiguration loops over the p4.Error list of a *P4RuntimeError; a status UNKNOWN
-   without details gives an empty list, nothing is inspected, the establishment is accepted *)
-Theorem C15_fail_rejects_refuted : exists c evs x, nth_error (snd (run (init c) evs)) 0 = Some x /\
-  existsb failed (o_log x) = true /\ o_acc x = true.
-Proof.
-  exists c0, [(OpEst 7 sess1, ([], [WOk; WOk; WOk; WOk; WUnk]))]. eexists. split. vm_compute. reflexivity. split; reflexivity.
-Qed.
-Print Assumptions C15_fail_rejects_refuted.
+Print Assumptions C15_fail_rejects.
 
 (* ---------------------------------------------------------------------------------------------------------
-   Non-vacuity: the guard of C15_counters_partial and the hypotheses of C15_fail_rejects_partial are met by a
-   history with a rejected establishment (Write 4 of 6, the tunnel-peer INSERT, fails: two counter cells, two
-   application-meter cells and a tunnel-peer id are stranded - conservation is an inequality), an accepted one, a modification
-   that moves a FAR to a new tunnel peer, a deletion, and a further establishment that re-uses what was released. *)
+   Non-vacuity: the guard of C15_counters_partial and the hypotheses of C15_fail_rejects are met by a history with
+   a rejected establishment (Write 4 of 6, the tunnel-peer INSERT, fails: two counter cells, two application-meter
+   cells and a tunnel-peer id are stranded - conservation is an inequality), an accepted one, a modification that
+   updates a PDR and moves a FAR to a new tunnel peer, one whose Write is answered UNKNOWN without details
+   (rejected), a REJECTED deletion (the session keeps its cells, the pool does not get them), the deletion
+   repeated successfully, and a further establishment that re-uses what was released. *)
 Definition hist_ok : list ev :=
   [ (OpEst 7 sess1, ([3; 0; 2; 1], [WOk; WOk; WOk; WFail]));
     (OpEst 8 sess1, ([1; 2; 3; 4], []));
-    (OpMod 8 (ModMsg [] [] [] [] [Far 2 true true 9] []), ([], []));
+    (OpMod 8 (ModMsg [] [] [] [Pdr 2 false 2 (Some 1) true 0] [Far 2 true true 9] []), ([], []));
+    (OpMod 8 (ModMsg [] [] [] [] [] [Qer 1 QApp]), ([], [WUnk]));
+    (OpDel 8, ([], [WFail]));
     (OpDel 8, ([], []));
     (OpEst 9 sess2, ([2; 1; 3; 2; 1], [])) ].
 Example C15_guard_inhabited :
-  ctr_guard hist_ok (snd (run (init c0) hist_ok)) = true /\
-  map o_acc (snd (run (init c0) hist_ok)) = [false; true; true; true; true] /\
-  map o_bad (snd (run (init c0) hist_ok)) = [false; false; false; false; false] /\
+  ctr_guard hist_ok = true /\
+  map o_acc (snd (run (init c0) hist_ok)) = [false; true; true; false; false; true; true] /\
+  map o_bad (snd (run (init c0) hist_ok)) = [false; false; false; false; false; false; false] /\
   holders KCtr (fst (run (init c0) hist_ok)) = [2; 1] /\ pool KCtr (fst (run (init c0) hist_ok)) = [4; 5] /\
   holders KAppCell (fst (run (init c0) hist_ok)) = [2; 1; 3] /\ pool KAppCell (fst (run (init c0) hist_ok)) = [5; 4] /\
   holders KSessCell (fst (run (init c0) hist_ok)) = [2; 1] /\ pool KSessCell (fst (run (init c0) hist_ok)) = [3; 4] /\
   holders KPeer (fst (run (init c0) hist_ok)) = [3; 5] /\ pool KPeer (fst (run (init c0) hist_ok)) = [4] /\
   holders KAppId (fst (run (init c0) hist_ok)) = [] /\ pool KAppId (fst (run (init c0) hist_ok)) = [2; 3; 1].
 Proof. vm_compute. repeat split. Qed.
+(* after the rejected deletion (operation 5) the session still holds cells 1 and 2 and the pool does not *)
+Example C15_rejected_deletion_keeps_cells :
+  let s := fst (run (init c0) (firstn 5 hist_ok)) in holders KCtr s = [1; 2] /\ pool KCtr s = [4; 5].
+Proof. vm_compute. split; reflexivity. Qed.
 Example C15_fail_rejects_inhabited :
-  exists x, nth_error (snd (run (init c0) hist_ok)) 0 = Some x /\ existsb unk_tolerated (o_log x) = false /\ existsb failed (o_log x) = true.
+  exists x, nth_error (snd (run (init c0) hist_ok)) 3 = Some x /\ existsb failed (o_log x) = true /\ o_acc x = false.
 Proof. eexists. split. vm_compute. reflexivity. split; reflexivity. Qed.
